@@ -6,6 +6,7 @@ import (
 	"go/token"
 	"go/types"
 	"regexp"
+	"sort"
 	"strings"
 
 	"gpverif/core"
@@ -75,10 +76,99 @@ func c19Bounds(r *core.Run, p *core.Prog, v string) {
 		if node == nil {
 			continue
 		}
+		nodeID := id
+		checkAccess := func(need int64, pos token.Pos, label string) {
+			n++
+			// the access must be unreachable from entry when every adequate guard only lets its
+			// unsafe edge through (hint: nothing; `len < L`: only the branch on which the packet IS too short)
+			adequate := map[int]guard{}
+			for _, gd := range guards {
+				if gd.limit >= need {
+					adequate[gd.node] = gd
+				}
+			}
+			ok := true
+			if _, self := adequate[nodeID]; !self {
+				seen := map[int]bool{core.Entry: true}
+				stack := []int{core.Entry}
+				for len(stack) > 0 && ok {
+					cur := stack[len(stack)-1]
+					stack = stack[:len(stack)-1]
+					succs := g.Succ[cur]
+					if gd, isG := adequate[cur]; isG {
+						if !gd.cond {
+							continue
+						}
+						thenN, _, _ := g.CondEdges(cur)
+						succs = []int{thenN}
+					}
+					for _, sx := range succs {
+						if sx == nodeID {
+							ok = false
+							break
+						}
+						if !seen[sx] {
+							seen[sx] = true
+							stack = append(stack, sx)
+						}
+					}
+				}
+			}
+			r.Check(rule, fmt.Sprintf("ParsePacket%s:access-below-%d:%s", v, need, label), p.Rel(pos), ok,
+				fmt.Sprintf("the IP layer is accessed up to byte %d without a dominating bounds hint / truncation check of at least that length: a shorter packet panics instead of being classified as truncated", need-1))
+		}
+		// constant accesses to parameter `par` inside fn (and, one level further, inside helpers it hands the layer to)
+		var accesses func(fn *core.Fn, par types.Object, depth int, emit func(need int64, pos token.Pos, label string))
+		accesses = func(fn *core.Fn, par types.Object, depth int, emit func(need int64, pos token.Pos, label string)) {
+			fi := fn.Info()
+			core.Walk(fn.Decl.Body, true, func(x ast.Node) bool {
+				switch e := x.(type) {
+				case *ast.IndexExpr:
+					if core.ObjOf(fi, e.X) == par {
+						if k, ok := core.ConstInt(fi, e.Index); ok {
+							emit(k+1, e.Pos(), fn.Name+":"+core.Str(e))
+						} else {
+							r.Undecided(rule, fmt.Sprintf("ParsePacket%s:variable-index:%s:%s", v, fn.Name, core.Str(e)), p.Rel(e.Pos()), "IP layer indexed by a non-constant in a helper")
+						}
+					}
+				case *ast.SliceExpr:
+					if core.ObjOf(fi, e.X) == par && e.High != nil {
+						if k, ok := core.ConstInt(fi, e.High); ok {
+							emit(k, e.Pos(), fn.Name+":"+core.Str(e))
+						} else {
+							r.Undecided(rule, fmt.Sprintf("ParsePacket%s:variable-slice:%s:%s", v, fn.Name, core.Str(e)), p.Rel(e.Pos()), "IP layer sliced by a non-constant in a helper")
+						}
+					}
+				case *ast.CallExpr:
+					if fo, ok := core.Callee(fi, e).(*types.Func); ok && depth < 2 {
+						if h := p.FnOf(fo); h != nil {
+							hs := h.Obj.Type().(*types.Signature)
+							for ai, a := range e.Args {
+								if core.ObjOf(fi, a) == par && ai < hs.Params().Len() {
+									accesses(h, hs.Params().At(ai), depth+1, emit)
+								}
+							}
+						}
+					}
+				}
+				return true
+			})
+		}
 		core.Walk(node, false, func(x ast.Node) bool {
 			var need int64 = -1
 			var pos token.Pos
 			switch e := x.(type) {
+			case *ast.CallExpr:
+				if fo, ok := core.Callee(info, e).(*types.Func); ok {
+					if h := p.FnOf(fo); h != nil {
+						hs := h.Obj.Type().(*types.Signature)
+						for ai, a := range e.Args {
+							if core.ObjOf(info, a) == layer && ai < hs.Params().Len() {
+								accesses(h, hs.Params().At(ai), 1, checkAccess)
+							}
+						}
+					}
+				}
 			case *ast.IndexExpr:
 				if core.ObjOf(info, e.X) == layer {
 					if k, ok := core.ConstInt(info, e.Index); ok {
@@ -99,44 +189,7 @@ func c19Bounds(r *core.Run, p *core.Prog, v string) {
 			if need < 0 {
 				return true
 			}
-			n++
-			// the access must be unreachable from entry when every adequate guard only lets its
-			// unsafe edge through (hint: nothing; `len < L`: only the branch on which the packet IS too short)
-			adequate := map[int]guard{}
-			for _, gd := range guards {
-				if gd.limit >= need {
-					adequate[gd.node] = gd
-				}
-			}
-			ok := true
-			if _, self := adequate[id]; !self {
-				seen := map[int]bool{core.Entry: true}
-				stack := []int{core.Entry}
-				for len(stack) > 0 && ok {
-					cur := stack[len(stack)-1]
-					stack = stack[:len(stack)-1]
-					succs := g.Succ[cur]
-					if gd, isG := adequate[cur]; isG {
-						if !gd.cond {
-							continue
-						}
-						thenN, _, _ := g.CondEdges(cur)
-						succs = []int{thenN}
-					}
-					for _, sx := range succs {
-						if sx == id {
-							ok = false
-							break
-						}
-						if !seen[sx] {
-							seen[sx] = true
-							stack = append(stack, sx)
-						}
-					}
-				}
-			}
-			r.Check(rule, fmt.Sprintf("ParsePacket%s:access-below-%d:%s", v, need, core.Str(x.(ast.Expr))), p.Rel(pos), ok,
-				fmt.Sprintf("the IP layer is accessed up to byte %d without a dominating bounds hint / truncation check of at least that length: a shorter packet panics instead of being classified as truncated", need-1))
+			checkAccess(need, pos, core.Str(x.(ast.Expr)))
 			return true
 		})
 	}
@@ -311,32 +364,45 @@ func c19CommonPort(r *core.Run, p *core.Prog) {
 		cur = in
 	}
 	t := info.TypeOf(cur.X)
-	// upper guards: X > C  (returning false)
-	bounds := map[string]int64{}
-	core.Walk(f.Decl.Body, false, func(x ast.Node) bool {
-		if ifs, ok := x.(*ast.IfStmt); ok && core.Leaves(ifs.Body) {
-			for _, d := range core.Conjuncts(ifs.Cond, true) {
-				if b, ok := core.BinOp(d, token.GTR); ok {
-					if k, ok := core.ConstInt(info, b.Y); ok {
-						bounds[core.Str(b.X)] = k
-					}
+	// upper bounds that hold at the access on every path reaching it (any shape / polarity of the guards)
+	g := core.GraphOf(f)
+	accNode := -1
+	for id, n := range g.Nodes {
+		if n != nil && n.Pos() <= acc.Pos() && acc.End() <= n.End() {
+			if accNode < 0 || (g.Nodes[accNode].End()-g.Nodes[accNode].Pos()) > (n.End()-n.Pos()) {
+				accNode = id
+			}
+		}
+	}
+	var bounds map[string]int64
+	if accNode >= 0 {
+		if paths, ok := g.Paths(core.Entry, accNode, 2000); ok {
+			for _, path := range paths {
+				ub := upperBoundsOnPath(info, f.Decl.Body, g, path, accNode)
+				if bounds == nil {
+					bounds = ub
+					continue
 				}
-				if b, ok := core.BinOp(d, token.GEQ); ok {
-					if k, ok := core.ConstInt(info, b.Y); ok {
-						bounds[core.Str(b.X)] = k - 1
+				for k, v := range bounds { // keep what holds on every path (the weakest bound)
+					if w, ok := ub[k]; !ok {
+						delete(bounds, k)
+					} else if w > v {
+						bounds[k] = w
 					}
 				}
 			}
 		}
-		return true
-	})
+	}
+	if bounds == nil {
+		bounds = map[string]int64{}
+	}
 	for i, e := range idx {
 		a, ok := t.Underlying().(*types.Array)
 		if !ok {
 			r.Undecided(rule, fmt.Sprintf("isCommonPort:dimension%d", i), p.Rel(e.Pos()), "table level is not a fixed-size array")
 			return
 		}
-		max, guarded := bounds[core.Str(e)]
+		max, guarded := bounds[core.Str(resolveLocal(info, f.Decl.Body, e))]
 		if !guarded {
 			// full range of the index type
 			if b, ok := info.TypeOf(e).Underlying().(*types.Basic); ok && b.Kind() == types.Uint8 {
@@ -357,37 +423,143 @@ func c19Siblings(r *core.Run, p *core.Prog) {
 	if f4 == nil || f6 == nil {
 		return
 	}
-	norm := func(f *core.Fn, to6 bool) []string {
-		var out []string
-		for _, st := range f.Decl.Body.List {
-			s := stmtString(st)
-			if to6 {
-				// the fragment check exists for IPv4 only (IPv6 fragments carry an extension header)
-				if strings.Contains(s, "ESP") {
+	// Each parser is summarised as the set of its control-flow paths, a path being the (unordered) collection of what it
+	// tests and what it stores, rendered canonically (locals inlined, parameters by position, version markers renamed).
+	// The summary does not depend on if-chain vs switch, on condition polarity, on local names, on hoisted expressions or
+	// on the order of independent statements.
+	ren := strings.NewReplacer("V4", "V6", "ipv4", "ipv6", "ICMPv6", "ICMP")
+	summarise := func(f *core.Fn) (map[string]bool, bool) {
+		info := f.Info()
+		g := core.GraphOf(f)
+		cn := newCanon(f)
+		cn.rename = func(s string) string { return ren.Replace(s) }
+		cases := enumTests(f.Decl.Body)
+		v4only := func(s string) bool { return strings.Contains(s, "Frag") || strings.Contains(s, ".ESP") }
+		paths, ok := g.Paths(core.Entry, core.Exit, 20000)
+		if !ok {
+			return nil, false
+		}
+		out := map[string]bool{}
+		for _, path := range paths {
+			var evs []string
+			drop := false
+			known := map[string]bool{} // protocol constants already decided on this path
+			for i, id := range path {
+				n := g.Nodes[id]
+				if n == nil {
 					continue
 				}
-				s = strings.NewReplacer("V4", "V6", "ipv4", "ipv6", "capturetypes.ICMP ", "capturetypes.ICMPv6 ").Replace(s)
+				if tk, isC := g.Taken(path, i); isC {
+					if subj, k, eq, ok := enumCond(cases, n, tk); ok {
+						e := fmt.Sprintf("%s==%s:%v", cn.str(subj), cn.str(k), eq)
+						if v4only(e) {
+							continue
+						}
+						if eq && len(known) > 0 {
+							for kk := range known {
+								if kk != cn.str(k) {
+									drop = true // two different protocol values on one path: infeasible
+								}
+							}
+						}
+						if eq {
+							known[cn.str(k)] = true
+						}
+						evs = append(evs, "test "+e)
+						continue
+					}
+					atoms, truths := atomsOf(n.(ast.Expr), tk)
+					for j, a := range atoms {
+						e := fmt.Sprintf("%s:%v", cn.str(a), truths[j])
+						if !v4only(e) {
+							evs = append(evs, "test "+e)
+						}
+					}
+					continue
+				}
+				switch st := n.(type) {
+				case *ast.AssignStmt:
+					for j, l := range st.Lhs {
+						lo, _ := core.ObjOf(info, rootIdent(l)).(*types.Var)
+						if lo == nil {
+							continue
+						}
+						isResult := false
+						sig := f.Obj.Type().(*types.Signature)
+						for k := 0; k < sig.Results().Len(); k++ {
+							if sig.Results().At(k) == lo {
+								isResult = true
+							}
+						}
+						if !isResult {
+							continue // locals are inlined by the canonical rendering
+						}
+						rhs := ""
+						if j < len(st.Rhs) {
+							rhs = cn.str(st.Rhs[j])
+						}
+						e := fmt.Sprintf("store %s=%s", cn.str(l), rhs)
+						if strings.Contains(e, "FragmentIgnore") {
+							drop = true // the IPv4-only fragment exit
+						}
+						if !v4only(e) {
+							evs = append(evs, e)
+						}
+					}
+				case *ast.ExprStmt:
+					if c, ok := st.X.(*ast.CallExpr); ok && core.CallName(info, c) == "builtin.copy" {
+						evs = append(evs, "store "+cn.str(c))
+					}
+				}
 			}
-			out = append(out, s)
+			if drop {
+				continue
+			}
+			sort.Strings(evs)
+			out[strings.Join(evs, " | ")] = true
 		}
-		return out
+		return out, true
 	}
-	a, b := norm(f4, true), norm(f6, false)
-	ok := len(a) == len(b)
+	s4, ok4 := summarise(f4)
+	s6, ok6 := summarise(f6)
+	if !ok4 || !ok6 {
+		r.Undecided(rule, "ParsePacketV4~ParsePacketV6", p.Rel(f6.Decl.Pos()), "too many paths")
+		return
+	}
 	diff := ""
-	for i := 0; ok && i < len(a); i++ {
-		if a[i] != b[i] {
-			ok = false
-			diff = fmt.Sprintf("statement %d: V4 (renamed) `%s` vs V6 `%s`", i, a[i], b[i])
+	for k := range s4 {
+		if !s6[k] {
+			diff = "IPv4 only: " + k
 		}
 	}
-	if len(a) != len(b) {
-		diff = fmt.Sprintf("%d vs %d top-level statements", len(a), len(b))
+	for k := range s6 {
+		if !s4[k] {
+			diff = "IPv6 only: " + k
+		}
 	}
-	r.Check(rule, "ParsePacketV4~ParsePacketV6", p.Rel(f6.Decl.Pos()), ok, "the IPv4 and IPv6 parsers must treat ports, flags and truncation identically (allowed differences: the IPv4 fragment check, the ICMP protocol constant): "+diff)
+	r.Stat("paths_enumerated", len(s4)+len(s6))
+	r.Check(rule, "ParsePacketV4~ParsePacketV6", p.Rel(f6.Decl.Pos()), diff == "" && len(s4) >= 6,
+		"the IPv4 and IPv6 parsers must treat ports, flags and truncation identically (allowed differences: the IPv4 fragment check, the ICMP protocol constant); a path (what it tests and stores) of one has no counterpart in the other — "+diff)
 }
 
-// stmtString renders a statement structurally (expressions via types.ExprString).
+// rootIdent strips selectors, indices, slices and dereferences down to the identifier an lvalue is rooted in.
+func rootIdent(e ast.Expr) ast.Expr {
+	for {
+		switch x := ast.Unparen(e).(type) {
+		case *ast.SelectorExpr:
+			e = x.X
+		case *ast.IndexExpr:
+			e = x.X
+		case *ast.SliceExpr:
+			e = x.X
+		case *ast.StarExpr:
+			e = x.X
+		default:
+			return e
+		}
+	}
+}
+
 func stmtString(s ast.Stmt) string {
 	switch x := s.(type) {
 	case *ast.ExprStmt:
